@@ -70,6 +70,7 @@ type Config struct {
 	Witness      *Witness          // for Concrete
 	MapOrder     string            // base order of map iteration: sorted | reverse
 	NoSkipGuard  bool              // disable the skip-guard schedule reduction
+	SampleWitnesses int            // produce witnesses for up to this many completed paths (native validation of stubs)
 }
 
 type InputVal struct {
@@ -135,6 +136,7 @@ type Result struct {
 	Notes       []string                  `json:"notes"`
 	Patterns    map[string]string         `json:"patterns,omitempty"` // regexp pattern -> RegLan
 	Langs       map[string][]LangPath     `json:"langs,omitempty"`
+	PathWitnesses []*Witness              `json:"path_witnesses,omitempty"`
 }
 
 type seenShard struct {
@@ -478,6 +480,19 @@ func (w *worker) runPath(prefix []Decision) {
 	}
 	if end == "ok" {
 		st.reachLabel("return")
+		if k := ex.Cfg.SampleWitnesses; k > 0 {
+			ex.mu.Lock()
+			// spread the samples: every path until k/2, then every 50th path
+			n := len(ex.res.PathWitnesses)
+			take := n < k && (n < k/2 || ex.res.Paths%50 == 0)
+			ex.mu.Unlock()
+			if take && st.sol.check() == "sat" {
+				w := st.witness()
+				ex.mu.Lock()
+				ex.res.PathWitnesses = append(ex.res.PathWitnesses, w)
+				ex.mu.Unlock()
+			}
+		}
 	}
 	w.sol.send("(pop)")
 	ex.mu.Lock()
